@@ -733,3 +733,15 @@ def foreign_formal_programs(export=("ExportJson", "ExportProvn")):
     for e in export:
         p.append([e, "0"])
     return [p]
+
+
+def without_exports(ops):
+    """the program without its export and observation calls — cut off before the first call that appends a document and
+    is left out here (LoadJson, GraphRoundTrip): later calls name documents by their number"""
+    out = []
+    for o in ops:
+        if o[0] in ("LoadJson", "GraphRoundTrip"):
+            break
+        if o[0] not in ("ExportJson", "ExportProvn", "ToGraph", "ObserveAll"):
+            out.append(o)
+    return out
